@@ -1,21 +1,22 @@
-\* C04 thorough (model checking only, 2): 2 threads, <= 3 spans (verdict free), <= 4 frames, no tasks, nesting <= 3, sync forms, incoming ids (pair, trace id alone, span id alone), hand-off.
+\* C04 quick (incoming): 1 thread, <= 3 spans (filter verdict free), <= 3 frames, no tasks, nesting <= 3; incoming ids pushed as trace id + span id,
+\* as a trace id alone and as a span id alone (typed / hex / integer / SpanCtxt), spans and events under them, Frame::current; every transition replayed.
 SPECIFICATION SSpec
 CONSTANTS
-    NThreads = 2
+    NThreads = 1
     StoreOf <- MC_Store1
     InstKind <- MC_Kind1
     NKeys = 3
     PropChoices <- MC_None
     Kinds <- MC_None
     Forms <- MC_None
-    MaxFrames = 4
+    MaxFrames = 3
     MaxTasks = 0
     MaxDepth = 3
     Panics = FALSE
     MaxSpans = 3
     IncomingKinds <- MC_IncAll
     WithLazy = FALSE
-    Emit = FALSE
+    Emit = TRUE
 VIEW sview
 INVARIANTS InnermostWins NoTrace StackOK FrameIds AmbientIds OneTrace ParentIsEnclosing EventCarriesInnermost IdsDistinct
 PROPERTIES Revert
